@@ -125,10 +125,7 @@ func c12Digest(o order.Order) (out string) {
 	}()
 	d, err := o.Digest()
 	if err != nil {
-		if strings.Contains(err.Error(), "unknown version") {
-			return "err:digest-version"
-		}
-		return "err:other:" + strings.ReplaceAll(err.Error(), " ", "_")
+		return "err/digest"
 	}
 	return "ok:" + hex.EncodeToString(d[:])
 }
@@ -617,7 +614,7 @@ func (e *c12Env) submitCase(r *Run, c c12Order, rng *rand.Rand, replay interface
 			out = "err:exists"
 		}
 		r.Emit(fmt.Sprintf("C12 prepare %s %d", c.tok(), k), out)
-		r.Count("prepare/" + strings.SplitN(out, ":", 3)[0] + ":" + strings.SplitN(out+"::", ":", 3)[1])
+		r.Count("prepare/" + out)
 		markFailed()
 		if out != "err:exists" {
 			r.Count("submit/prepare-rejected")
@@ -638,7 +635,7 @@ func (e *c12Env) submitCase(r *Run, c c12Order, rng *rand.Rand, replay interface
 	r.Emit(fmt.Sprintf("C12 prepare %s %d", c.tok(), k),
 		fmt.Sprintf("ok:%d.%s", signerKey, c14Hex(signedMsg)))
 	sres := c14Guard(func() error { return e.client.SubmitOrder(e.ctx, o, params) })
-	r.Count(fmt.Sprintf("submit/mode%d/%s", mode, strings.SplitN(sres, ":", 3)[0]))
+	r.Count(fmt.Sprintf("submit/mode%d/%s", mode, sres[:min(len(sres), 3)]))
 	if sres != "ok" {
 		markFailed()
 	}
@@ -802,12 +799,11 @@ func (e *c12Env) submitRaw(r *Run, c c12Order, rng *rand.Rand) {
 		switch {
 		case err == nil:
 			res = "ok"
-		case strings.Contains(err.Error(), "unhandled channel type"):
-			res = "err:channel-type"
-		case strings.Contains(err.Error(), "unknown node tier"):
-			res = "err:node-tier"
+		case e.srv.got == nil:
+			// refused locally, nothing was transmitted
+			res = "err/unsent"
 		default:
-			res = "err:other:" + strings.ReplaceAll(err.Error(), " ", "_")
+			res = "err/sent"
 		}
 	}()
 	out := res
@@ -837,6 +833,11 @@ func (e *c12Env) submitRaw(r *Run, c c12Order, rng *rand.Rand) {
 	r.Emit(fmt.Sprintf("C12 submit %s %s %s %s", c.tok(), c14Hex(params.RawSig), c14Hex(params.MultiSigKey[:]),
 		c14Hex(params.NodePubkey[:])), out)
 	r.Count("submitraw/" + res)
+	if c.ChannelType > 2 {
+		r.Count("submitraw/undefined-channel-type")
+	} else if c.Bid && c.MinNodeTier > 2 {
+		r.Count("submitraw/undefined-node-tier")
+	}
 }
 
 // c12FromKit is the JSON/token form of a kit produced by the real code.
@@ -941,23 +942,10 @@ func (e *c12Env) parseCase(r *Run, rng *rand.Rand) {
 		}()
 		var err error
 		kit, err = order.ParseRPCOrder(version, lease, d, opts...)
-		switch {
-		case err == nil:
+		if err == nil {
 			res = "ok"
-		case strings.Contains(err.Error(), "must be greater than 0"):
-			res = "err:min-units-zero"
-		case strings.Contains(err.Error(), "must not exceed total order units"):
-			res = "err:min-units-exceed"
-		case strings.Contains(err.Error(), "unhandled channel type"):
-			res = "err:channel-type"
-		case strings.Contains(err.Error(), "allowed and not allowed node ids set"):
-			res = "err:both-lists"
-		case strings.Contains(err.Error(), "invalid allowed_node_ids"):
-			res = "err:allowed-id"
-		case strings.Contains(err.Error(), "invalid not_allowed_node_ids"):
-			res = "err:not-allowed-id"
-		default:
-			res = "err:other:" + strings.ReplaceAll(err.Error(), " ", "_")
+		} else {
+			res = "err"
 		}
 	}()
 	out := res
